@@ -282,6 +282,21 @@ def iface_contracts(pkg):
         if skipped:
             continue  # the ordinals of Dispatch would not line up; nothing is claimed about this interface's dispatcher
         o += ["//@ func (*%s).Dispatch" % iface, "//@   noframe"]
+        # C01 (on failure the caller gets the implementation's error): an error returned by the servant implementation
+        # is what Dispatch returns, unchanged - the server maps it to the reply's code and message from its dynamic type
+        # (ghost gimpfail: the implementation has just returned an error, gimperr: which. Every call is a havoc for
+        # ghosts, so the flag is cleared after each call and no call may be made while it is set: between the
+        # implementation's failure and the return nothing runs - a wrapper around the error would be such a call)
+        o += ["//@   site Int8ToByte#0 ghost obj.gimpfail = false",
+              "//@   site *#0 assert [C16] !obj.gimpfail",
+              "//@   site *#0 ghostafter obj.gimpfail = false"]
+        for op, hasret, args in ops:
+            r = "$ret1" if hasret else "$ret"
+            for sv in ("%sServant)" % iface, "%sServantWithContext)" % iface):
+                o += ["//@   site %s.%s#0 ghostafter obj.gimperr = %s" % (sv, upper1(op), r),
+                      "//@   site %s.%s#0 ghostafter obj.gimpfail = %s != nil" % (sv, upper1(op), r),
+                      "//@   sites %s.%s = 1" % (sv, upper1(op))]
+        o += ["//@   ensures [C16] obj.gimpfail ==> result == obj.gimperr", "//@   perreturn"]
         o += ["//@   site ).Read#%d assert [C16] $2 == %d" % (k, t) for k, t in enumerate(drd)]
         o += ["//@   sites ).Read = %d" % len(drd)]
         o += ["//@   site ).Write#%d assert [C16] $2 == %d" % (k, t) for k, t in enumerate(dwr) if t is not None]
